@@ -11,7 +11,7 @@ Local Open Scope N_scope.
 
 Definition rc_store (k : rx_chunk) : cstore :=
   mk_cs (ck_store (rc_hdr k)) (rc_data k) (hd_store (rc_trailers k)) [b2n (rc_valid k); b2n (rc_cr k); b2n (rc_fail k)].
-Definition kc_of (L : limits) : size_line_code := mk_slc (ck_src L) ck_parse_src ck_valid_src ck_size_src ck_is_last_src ck_clear_src.
+Definition kc_of (L : limits) : size_line_code := mk_slc (ck_src L) ck_parse_src ck_valid_src ck_size_src ck_is_last_src ck_clear_src ck_fail_src.
 Definition rc_src (L : limits) : cstmt := if strict_crlf L then rc_parse_src_strict else rc_parse_src_lax.
 
 (* the pieces of the body *)
